@@ -400,7 +400,8 @@ def engine_run(ch, *, bias=None, unknown_rates=(0.0, 0.0, 0.03, 0.3, 1.0), n_sig
                             oracle="ENGINE:input-uncovered", disc="no-path-contains-input",
                             detail=f"input { {k: hex(v) for k, v in sigma.items()} } is contained in none of the "
                                    f"{len(reports)} reported paths, exploration not flagged as bounded; reference outcome: "
-                                   f"{fr.error or 'success'} {fr.output.hex()[:64]}", kind="uncovered"))
+                                   f"{fr.error or 'success'} {fr.output.hex()[:64]}", kind="uncovered",
+                            ref_errors=sorted({f_.error for f_ in (_all_frames(fr)[1:] if hasattr(fr, "trace") else []) if f_.error})))
             else:
                 probe("sigma_covered")
         # ---------------- inputs that fail an assertion must be in a path that carries the failure
